@@ -140,8 +140,7 @@ class HashTable:
         return self.dtype(mod) if mod <= np.iinfo(keys.dtype).max else mod
 
     def _get_hash(self, keys):
-        keys = np.asanyarray(keys)
-        if keys.dtype.kind in "iu" and self._mod > np.iinfo(keys.dtype).max:
+        if isinstance(keys, (np.ndarray, np.generic)) and keys.dtype.kind in "iu" and self._mod > np.iinfo(keys.dtype).max:
             keys = keys.astype(np.int64)  # a modulus beyond the range of a narrow key type is still a modulus
         return keys % self._mod
 
